@@ -535,6 +535,10 @@ class Walker:
             val = args[0] if args else ("unk", name)
             if decl.endswith("into_future"):
                 pass
+        elif IS_VARIANT.search(name) and len(args) == 1 and isinstance(strip_refs(args[0]), tuple) and strip_refs(args[0])[:2] == ("agg", "adt") \
+                and strip_refs(args[0])[3] in ("Some", "None", "Ok", "Err"):
+            # `Some(v).is_some()` etc. on a constructor built on this path: a constant
+            val = ("c", "bool", int((strip_refs(args[0])[3] in ("Some", "Ok")) == name.endswith(("is_some", "is_ok"))))
         elif t["t"] is not None and COMBINATOR.search(name) and self._combinator(st, t, bi, name, args):
             return None
         else:
